@@ -259,6 +259,7 @@ class Interp:
         self.max_depth = max_depth
         #: transparently inline private helpers of the same object / module (rule paths)
         self.helpers = False
+        self.loop_bound = LOOP_BOUND
         self._helper_stack = []
         self._summaries = {}
         self._busy = set()
@@ -689,6 +690,12 @@ class Interp:
                     len(value.elts) == len(target.elts) and not any(
                     isinstance(e, ast.Starred) for e in list(value.elts) + list(target.elts)):
                 parts = list(value.elts)  # a, b = x, y
+            elif value is not None and not any(isinstance(e, ast.Starred)
+                                               for e in target.elts):
+                # a, b = pair: every element is the matching item of the pair
+                parts = [ast.copy_location(ast.Subscript(
+                    value=value, slice=ast.Constant(value=index), ctx=ast.Load()), value)
+                    for index in range(len(target.elts))]
             for elt, part in zip(target.elts, parts):
                 self._store(elt, part, st, fr, stmt, aug)
             return
@@ -960,7 +967,7 @@ class Interp:
                 if not value:
                     results.extend(self.exec_block(stmt.orelse, s2, fr))
                     continue
-                if count >= LOOP_BOUND:
+                if count >= self.loop_bound:
                     self.stats['truncated'] += 1
                     continue
                 for out, s3 in self.exec_block(stmt.body, s2, fr):
@@ -983,7 +990,7 @@ class Interp:
             done = s.fork()
             self._emit(done, 'iter-end', stmt, fr)
             results.extend(self.exec_block(stmt.orelse, done, fr))
-            if count >= LOOP_BOUND:
+            if count >= self.loop_bound:
                 self.stats['truncated'] += 1
                 continue
             self._emit(s, 'iter-next', stmt, fr, iter=stmt.iter)
@@ -1010,7 +1017,7 @@ class Interp:
                     results.extend(self.exec_block(stmt.orelse, s2, fr))
                 else:
                     results.append((out, s2))
-            if count >= LOOP_BOUND:
+            if count >= self.loop_bound:
                 self.stats['truncated'] += 1
                 continue
             for out, s2 in self.do_anext(stmt, types, s, fr, end=False):
@@ -1751,7 +1758,8 @@ class Interp:
             if cls is not None and self._caught(cls):
                 raises.add(cls)
         if how == 'call' and isinstance(node, ast.Call) and \
-                isinstance(node.func, ast.Attribute) and node.func.attr in ('send', 'throw') \
+                _bound_attrs(node.func, fr.fn) and \
+                _bound_attrs(node.func, fr.fn) <= {'send', 'throw'} \
                 and self._caught('ext:StopIteration'):
             raises.add('ext:StopIteration')
             # a generator driven by hand may raise anything
@@ -1943,7 +1951,7 @@ class Interp:
             while frontier:
                 cur, count = frontier.pop()
                 out.append(cur.fork())
-                if count >= LOOP_BOUND:
+                if count >= self.loop_bound:
                     continue
                 inner = [cur]
                 for gen in gens[1:]:
@@ -2410,6 +2418,34 @@ def _target_subexprs(target) -> list:
     if isinstance(target, ast.Starred):
         return _target_subexprs(target.value)
     return []
+
+
+def _bound_attrs(func, fn) -> set:
+    """attribute names a called expression may stand for: ``g.send`` itself, or a local
+    bound only to such attributes (``resume = g.send if ok else g.throw``)"""
+    if isinstance(func, ast.Attribute):
+        return {func.attr}
+    if not isinstance(func, ast.Name) or fn is None or isinstance(fn.node, ast.Lambda):
+        return set()
+    from .types import _collect_local_bindings
+    names = set()
+    for name, how, expr, _extra in _collect_local_bindings(fn.node):
+        if name != func.id:
+            continue
+        if how != 'assign' or expr is None:
+            return set()
+        todo = [expr]
+        while todo:
+            cur = todo.pop()
+            if isinstance(cur, ast.IfExp):
+                todo += [cur.body, cur.orelse]
+            elif isinstance(cur, ast.Attribute):
+                names.add(cur.attr)
+            else:
+                return set()
+    if any(a.arg == func.id for a in fn.node.args.args + fn.node.args.kwonlyargs):
+        return set()
+    return names
 
 
 def _is_exception_name(name: str) -> bool:
